@@ -371,20 +371,6 @@ def clause_a_journal(b, ev, vd, tier, work, rng, U):
         scen += rest[:24]
     else:
         scen += rest
-    with cf.ProcessPoolExecutor(max_workers=JOBS) as ex:
-        res = list(ex.map(journal_case, [(b, s_, work, i) for i, s_ in enumerate(scen)], chunksize=2))
-    lines, keep, skipped = [], [], 0
-    for s_, r_ in zip(scen, res):
-        if "skip" in r_:
-            skipped += 1
-            if s_ in U["mandatory_scenarios"]:
-                die_broken("mandatory journal scenario could not be set up: %s (%s)" % (r_["skip"], json.dumps(s_)))
-            continue
-        lines.append(json.dumps(r_)); keep.append((s_, r_))
-    res2 = validate_u(lines, os.path.join(work, "tvj"), chunk=40)
-    if res2["broken"]:
-        die_broken("TLC failed on Trace_CsumUniverse (journals): %s\n%s" % (res2["broken"][0]["error"], res2["broken"][0]["tail"][-1200:]))
-    ev.cov["states"] += res2["distinct"]; ev.cov["transitions"] += res2["generated"]
 
     def sckey(s_):
         c = s_["cfg"]
@@ -396,22 +382,45 @@ def clause_a_journal(b, ev, vd, tier, work, rng, U):
                   if o["st"] != o["fm"] or (o["k"] == "tag" and (o["logmagic"] or bool(o["esc"]) != bool(o["want_esc"]) or not o["data_ok"]))]
         return "ver %d start %d tags %d descs %d revoked %d commits %d err %s; objects off the format: %s" % (
             j["ver"], j["start"], j["tags"], j["descs"], j["revoked"], j["commits"], j["err"], json.dumps(badobj[:4]))
-    for i in res2["DEVLINE"]:
-        s_, r_ = keep[i]
-        vd.violation("a|journal|DevV1CommitCoversRevoke", "journal scenario %s: %s" % (sckey(s_), describe(r_)), {"clause": "a-journal", "scenario": s_, "decoded": _slim(r_["j"])})
-    for i in res2["BADLINE"]:
-        s_, r_ = keep[i]
-        vd.violation("a|journal|%s" % sckey(s_), "the journal the tools wrote for scenario %s is not what the jbd2 format defines: %s" % (sckey(s_), describe(r_)),
-                     {"clause": "a-journal", "scenario": s_, "decoded": _slim(r_["j"])})
-    nobj = 0
-    for s_, r_ in keep:
-        nobj += len(r_["j"]["objs"]); ev.nontrivial(("aj", sckey(s_)))
-    ev.cov["a_journals"] = len(lines); ev.cov["a_journal_objects"] = nobj; ev.cov["a_journal_skipped"] = skipped
+    mand = {json.dumps(s_, sort_keys=True) for s_ in U["mandatory_scenarios"]}
+    nlines = nobj = skipped = 0
+    first = None
+    BATCH = 600                      # results hold every decoded object: bounded memory in the thorough tier
+    for b0 in range(0, len(scen), BATCH):
+        part = scen[b0:b0 + BATCH]
+        with cf.ProcessPoolExecutor(max_workers=JOBS) as ex:
+            res = list(ex.map(journal_case, [(b, s_, work, b0 + i) for i, s_ in enumerate(part)], chunksize=2))
+        lines, keep = [], []
+        for s_, r_ in zip(part, res):
+            if "skip" in r_:
+                skipped += 1
+                if json.dumps(s_, sort_keys=True) in mand:
+                    die_broken("mandatory journal scenario could not be set up: %s (%s)" % (r_["skip"], json.dumps(s_)))
+                continue
+            lines.append(json.dumps(r_)); keep.append((s_, r_))
+        res2 = validate_u(lines, os.path.join(work, "tvj%d" % b0), chunk=40)
+        if res2["broken"]:
+            die_broken("TLC failed on Trace_CsumUniverse (journals): %s\n%s" % (res2["broken"][0]["error"], res2["broken"][0]["tail"][-1200:]))
+        ev.cov["states"] += res2["distinct"]; ev.cov["transitions"] += res2["generated"]
+        for i in res2["DEVLINE"]:
+            s_, r_ = keep[i]
+            vd.violation("a|journal|DevV1CommitCoversRevoke", "journal scenario %s: %s" % (sckey(s_), describe(r_)), {"clause": "a-journal", "scenario": s_, "decoded": _slim(r_["j"])})
+        for i in res2["BADLINE"]:
+            s_, r_ = keep[i]
+            vd.violation("a|journal|%s" % sckey(s_), "the journal the tools wrote for scenario %s is not what the jbd2 format defines: %s" % (sckey(s_), describe(r_)),
+                         {"clause": "a-journal", "scenario": s_, "decoded": _slim(r_["j"])})
+        for s_, r_ in keep:
+            nobj += len(r_["j"]["objs"]); ev.nontrivial(("aj", sckey(s_)))
+        nlines += len(lines)
+        if keep and first is None:
+            s_, r_ = keep[0]
+            first = {"clause": "a-journal", "scenario": sckey(s_), "objects": len(r_["j"]["objs"]), "tags": r_["j"]["tags"], "ver": r_["j"]["ver"]}
+        shutil.rmtree(os.path.join(work, "tvj%d" % b0), ignore_errors=True)
+    ev.cov["a_journals"] = nlines; ev.cov["a_journal_objects"] = nobj; ev.cov["a_journal_skipped"] = skipped
     ev.cov["a_journal_universe"] = len(U["scenarios"])
-    if keep:
-        s_, r_ = keep[0]
-        ev.sample({"clause": "a-journal", "scenario": sckey(s_), "objects": len(r_["j"]["objs"]), "tags": r_["j"]["tags"], "ver": r_["j"]["ver"]})
-    return len(lines)
+    if first:
+        ev.sample(first)
+    return nlines
 
 
 def _slim(j):
